@@ -414,9 +414,9 @@ class LtlAstParserVisitor(LtlParserVisitor):
 
         self.out_var = id_head
         self.out_var_field = id_tail
-        # the variable that receives the result is not an input, unless the formula reads it (another field of the same object)
-        if not self.reads(out, id_head):
-            self.free_vars.discard(id_head)
+        # the variable that receives the result is not an input, unless a formula reads it (another field of the same object):
+        # decided in visitSpecification, when every assertion is known
+        self.written_vars = getattr(self, 'written_vars', []) + [id_head]
         self.specs.append(out)
 
         return
@@ -440,6 +440,12 @@ class LtlAstParserVisitor(LtlParserVisitor):
 
     def visitSpecification(self, ctx):
         self.visitChildren(ctx)
+        for var_name in getattr(self, 'written_vars', []):
+            if any(self.reads(spec, var_name) for spec in self.specs):
+                if var_name in self.var_type_dict:
+                    self.free_vars.add(var_name)
+            else:
+                self.free_vars.discard(var_name)
         try:
             del self.var_subspec_dict[self.out_var + self.out_var_field]
         except KeyError:
